@@ -216,10 +216,6 @@ func c19Do(loc *core.Location, ctx *core.Context, x c19Op) (res string, err erro
 		ids, err = loc.ListRules(ctx, true)
 		sort.Strings(ids)
 		res = strings.Join(ids, ",")
-		if err == nil && res == "" {
-			// ListRules swallows search errors and returns nothing
-			err = fmt.Errorf("empty")
-		}
 	case "SearchRulesInherited":
 		var rs map[string]*core.Rule
 		rs, err = loc.SearchRules(ctx, core.Map{"plain": "x"}, true)
